@@ -3,7 +3,7 @@ import itertools
 
 from .. import taps
 from ..core import canon_hash
-from ..direct import DirectRun, gen_deep_cancel_history, gen_history
+from ..direct import DirectRun, gen_deep_cancel_history, gen_history, gen_tie_history
 from ..tracker import BookTracker
 
 RULE = (
@@ -32,6 +32,10 @@ def budget(tier):
 
 
 def gen_case(rng, tier, idx):
+    if idx % 10 in (5, 6):
+        c = gen_tie_history(rng, tier)
+        c["drive"] = "direct"
+        return c
     if idx % 10 in (7, 8):
         c = gen_deep_cancel_history(rng, tier)
         c["drive"] = "direct"
@@ -39,7 +43,7 @@ def gen_case(rng, tier, idx):
     if idx % 10 == 9:
         from ..runnerdrive import gen_runner_case
 
-        return gen_runner_case(rng, tier, profile="matching")
+        return gen_runner_case(rng, tier, profile="matching", clipped=(idx % 20 == 19))
     prof = {"max_levels": rng.choice([1, 1, 2, 3, 4])}
     if rng.random() < 0.5:
         prof["tick"] = rng.choice([1.0, 0.5, 10.0, 0.1])
@@ -137,6 +141,8 @@ class C02Monitor(BookTracker):
         self.check_best(ev["mkt"], book, "after-accept")
 
     def on_other(self, ev):
+        if ev["k"] == "refused_ret":
+            self.check_best(ev["mkt"], self.book(ev["mkt"]), "after-refused-request")
         if ev["k"] == "cancel_call":
             book = self.book(ev["mkt"])
             so = book.live.get(ev["snap"]["order_id"])
